@@ -320,12 +320,14 @@ def problem_classes():
     class _GPCommon:
         """goal bookkeeping + hooks shared by the two mixin variants"""
 
-        def __init__(self, specs=None, gp_opts=None, use_highs=False, stop_at=None, **kw):
+        def __init__(self, specs=None, gp_opts=None, use_highs=False, stop_at=None, on_completed=None, **kw):
             self._specs = specs or []
             self._gp_opts = gp_opts or {}
             self._use_highs = use_highs
             self._stop_at = stop_at  # "started" | "transcribe" | None
-            self.snaps = []  # (priority, [results per member], transcribed problem, objective)
+            self.snaps = []  # (priority, [results per member], transcribed problem, objective, x)
+            self.extras = []  # what the `on_completed` callback returned, per completed priority
+            self._on_completed = on_completed
             self.events = []
             self.n_transcribe = 0
             self.last_transcribe = None
@@ -377,6 +379,7 @@ def problem_classes():
             tp = dict(self.transcribed_problem)
             self.snaps.append((priority, res, tp, float(self.objective_value), np.array(self.solver_output).copy()))
             self.events.append(("completed", priority))
+            self.extras.append(self._on_completed(self, priority) if self._on_completed else None)
             super().priority_completed(priority)
 
     class GP(_GPCommon, GoalProgrammingMixin, Base):
